@@ -28,7 +28,7 @@ def check(ctx):
         o = ex.obj(s.value)
         if o is not None and pmatch("MultiPriorityEncoder(self.entries_number, 1)", o.ctor):
             encs[s.value] = s
-    ctx.floor("C24", "priority encoders", len(encs), 4, comp.site)
+    ctx.floor("C24", "priority encoders", len(encs), 1, comp.site)
 
     def enc_input(e):
         ws = writers_of(ex, ("a", e, "input"))
@@ -90,11 +90,13 @@ def check(ctx):
         masks[nm] = h.lhs
         # own encoder
         fed = [e for e in encs if any(w.rhs == h.lhs and enclosing_body(ex, w.fact) is b for w in enc_input(e))]
-        ctx.check(len(fed) == 1, "C24.mask-encoder-pairing", h.site, f"CAM.{nm}.encoder", found=f"feeds {len(fed)} encoder(s)", required="each mask feeds exactly its own encoder")
+        # (a mask may instead be turned into an index by count_trailing_zeros: also "the first matching slot")
+        ctz_use = any(pmatch("count_trailing_zeros(Q_m)", d) == {"m": h.lhs} for d in ex.vardefs.values())
+        ctx.check(len(fed) == 1 or (not fed and ctz_use), "C24.mask-encoder-pairing", h.site, f"CAM.{nm}.encoder", found=f"feeds {len(fed)} encoder(s)" + (", indexed by count_trailing_zeros" if ctz_use else ""), required="each mask feeds exactly its own first-set-bit finder")
         if len(fed) == 1:
             masks[nm + "_enc"] = fed[0]
     used = [masks.get(n + "_enc") for n in ("write", "read", "remove")]
-    ctx.check(len({u for u in used if u is not None}) == 3, "C24.mask-encoder-pairing", comp.site, "CAM.encoders.distinct", found=f"{len({u for u in used if u is not None})} distinct encoders", required="write, read and remove use three different encoders")
+    ctx.check(len({u for u in used if u is not None}) == len([u for u in used if u is not None]), "C24.mask-encoder-pairing", comp.site, "CAM.encoders.distinct", found=f"{len({u for u in used if u is not None})} distinct encoders", required="write, read and remove use three different encoders")
     # effects guarded by mask.any(), indexed by the own encoder's output
     if "write" in masks and "write_enc" in masks:
         ws = [h for h in facts_in_body(ex, write, HwAssign) if is_sync(h.domain)]
@@ -113,9 +115,13 @@ def check(ctx):
         want = f_and(run_f(remove), to_formula(("call", ("a", masks["remove"], "any"), (), ())))
         ok = ok and equivalent(guard_of(ex, ws[0]), want) is None
         ctx.check(ok, "C24.remove-effect", ws[0].site if ws else remove.site, "CAM.remove.effect", found="; ".join(f"{tstr(h.lhs)} <- {tstr(h.rhs)}" for h in ws) or "none", required="remove clears the valid bit of the matching slot only when a match exists")
-    if "read" in masks and "read_enc" in masks:
+    if "read" in masks:
         rf = returned_fields(read)
-        ok = rf.get("data") == ("i", data_arr, ("i", ("a", masks["read_enc"], "outputs"), ("c", 0)))
+        # the slot read is the first matching one: the own encoder's first output, or the trailing-zero count of the mask
+        d_ = rf.get("data")
+        idx_ = d_[2] if d_ is not None and d_[0] == "i" and d_[1] == data_arr else None
+        idx_d = (ex.vardef(idx_) or idx_) if idx_ is not None else None
+        ok = idx_ is not None and (("read_enc" in masks and idx_ == ("i", ("a", masks["read_enc"], "outputs"), ("c", 0))) or pmatch("count_trailing_zeros(Q_m)", idx_d) == {"m": masks["read"]})
         nf = rf.get("not_found")
         ok = ok and nf is not None and equivalent(to_formula(nf), f_not(to_formula(("call", ("a", masks["read"], "any"), (), ())))) is None
         ctx.check(ok, "C24.read-result", read.site, "CAM.read.result", found=tstr(read.ret)[:200] if read.ret else "none", required="read returns the data of the matching slot and not_found iff no match")
